@@ -286,10 +286,22 @@ def run(ck, ctx):
                     e_ = pr.equivalent(f, want)
                     ok_sel = ok_sel and bool(e_ and e_[0])
                 base_ok = dl[-1][1] is not None and dl[-1][1].op == "Const" and dl[-1][1].attr == 0
-                ck.ob("R19.2", f"{tag}: layer j is selected by table[j] {'>=' if up else '<='} x (a boundary "
+                cf = _count_form(I, idx, key_tab, n_layers)
+                if cf is not None and not js:
+                    # the layer index as a count  #{j >= 1 : table[j] op x}  (comparison count or searchsorted on the
+                    # monotone table, R19.3): the same function as the decision list with that comparison
+                    op_, xq = cf
+                    ck.ob("R19.2", f"{tag}: layer j is selected by table[j] {'>=' if up else '<='} x (a boundary "
+                          "belongs to the upper layer, as in the inverse direction)", op_ == (">=" if up else "<="), idx,
+                          fname, f"layer index = number of layer bases j >= 1 with table[j] {op_} x")
+                    ck.ob("R19.2", f"{tag}: every layer 1..{(n_layers or 0) - 1} is considered, in increasing order",
+                          True, idx, fname, "count over table[1:]")
+                    js = None
+                if js is not None:
+                  ck.ob("R19.2", f"{tag}: layer j is selected by table[j] {'>=' if up else '<='} x (a boundary "
                       "belongs to the upper layer, as in the inverse direction)", bool(js) and ok_sel and base_ok and
                       len(others) == 1, idx, fname, f"{len(js)} comparison(s), {len(others)} compared quantity(ies)")
-                ck.ob("R19.2", f"{tag}: every layer 1..{(n_layers or 0) - 1} is considered, in increasing order",
+                  ck.ob("R19.2", f"{tag}: every layer 1..{(n_layers or 0) - 1} is considered, in increasing order",
                       n_layers is not None and js == list(range(n_layers - 1, 0, -1)), idx, fname,
                       f"layers tested (last store first): {js}")
                 # special values, per cell of the mask partition
@@ -401,3 +413,96 @@ def _is_inf(P, v):
     (m, _c), = c.num.items()
     return len(m) == 1 and P.atom_info[m[0][0]].get("kind") == "node" and \
         P.atom_info[m[0][0]]["node"].op == "Ext" and P.atom_info[m[0][0]]["node"].attr == "numpy.inf"
+
+
+def _count_form(I, idx, key_tab, n_layers):
+    """(op, x) if idx == #{j in 1..n-1 : key_tab[j] op x}, spelled as a count of comparisons against key_tab[1:] or
+    as searchsorted on the (monotone) table; None otherwise"""
+    from ..interp_expr import is_basic_index
+
+    def strip(n):
+        for _ in range(6):
+            if n.op == "MCall" and n.attr[0] in ("astype", "copy") and n.args:
+                n = n.args[0]
+            elif is_ext_call(n, "numpy.asarray", "numpy.intp", "numpy.int64") and len(n.args) >= 2:
+                n = n.args[1]
+            else:
+                break
+        return n
+
+    def tail_slice(n, reverse):
+        """n is key_tab[1:] (reverse False) or key_tab[:0:-1] (reverse True), possibly with added axes"""
+        for _ in range(3):
+            if n.op == "Subscript" and n.args[0] is not key_tab and _adds_axes_only(n.args[1]):
+                n = n.args[0]
+            else:
+                break
+        if n.op != "Subscript" or n.args[0] is not key_tab or n.args[1].op != "Slice":
+            return False
+        vals = [a.attr if a.op == "Const" else "?" for a in n.args[1].args] + [None] * 3
+        a, b, c = vals[:3]
+        if reverse:
+            return a is None and b == 0 and c == -1
+        return a == 1 and b is None and c in (None, 1)
+
+    def unbroadcast(n):
+        for _ in range(3):
+            if n.op == "Subscript" and _adds_axes_only(n.args[1]):
+                n = n.args[0]
+            else:
+                break
+        return n
+    n = strip(idx)
+    if n_layers is None:
+        return None
+    # (n - 1) - searchsorted(T[:0:-1], x, side)
+    if n.op == "BinOp" and n.attr == "Sub" and n.args[0].op == "Const" and n.args[0].attr == n_layers - 1:
+        s_ = strip(n.args[1])
+        if is_ext_call(s_, "numpy.searchsorted"):
+            pos, kws = call_args(s_)
+            side = kws.get("side") or (pos[2] if len(pos) > 2 else None)
+            side = "left" if side is None else (side.attr if side.op == "Const" else None)
+            if len(pos) >= 2 and tail_slice(pos[0], True) and side in ("left", "right") and "sorter" not in kws:
+                return (">=" if side == "left" else ">", unbroadcast(pos[1]))
+        return None
+    if is_ext_call(n, "numpy.searchsorted"):
+        pos, kws = call_args(n)
+        side = kws.get("side") or (pos[2] if len(pos) > 2 else None)
+        side = "left" if side is None else (side.attr if side.op == "Const" else None)
+        if len(pos) >= 2 and tail_slice(pos[0], False) and side in ("left", "right") and "sorter" not in kws:
+            return ("<=" if side == "right" else "<", unbroadcast(pos[1]))
+        return None
+    cmp_ = None
+    if is_ext_call(n, "numpy.count_nonzero", "numpy.sum"):
+        pos, kws = call_args(n)
+        ax = kws.get("axis") or (pos[1] if len(pos) > 1 else None)
+        if pos and ax is not None and ax.op == "Const" and ax.attr in (-1, 1):
+            cmp_ = pos[0]
+    elif n.op == "MCall" and n.attr[0] == "sum" and n.args:
+        cmp_ = n.args[0]
+    if cmp_ is not None and cmp_.op == "Compare" and cmp_.attr in ("Lt", "LtE", "Gt", "GtE"):
+        a, b = cmp_.args
+        sym = {"Lt": "<", "LtE": "<=", "Gt": ">", "GtE": ">="}[cmp_.attr]
+        flip = {"<": ">", "<=": ">=", ">": "<", ">=": "<="}
+        if tail_slice(a, False):
+            return (sym, unbroadcast(b))
+        if tail_slice(b, False):
+            return (flip[sym], unbroadcast(a))
+    return None
+
+
+def _adds_axes_only(ix):
+    parts = ix.args if ix.op == "Tuple" else (ix,)
+    ok = False
+    for p_ in parts:
+        if p_.op == "Const" and p_.attr is None:
+            ok = True
+        elif p_.op == "Const" and p_.attr is Ellipsis:
+            continue
+        elif p_.op == "Slice" and all(a.op == "Const" and a.attr is None for a in p_.args):
+            continue
+        elif p_.op == "Ext" and p_.attr == "numpy.newaxis":
+            ok = True
+        else:
+            return False
+    return ok
